@@ -17,6 +17,7 @@ package sparseindex
 import (
 	"math"
 
+	"github.com/openGemini/openGemini/lib/record"
 	"github.com/openGemini/openGemini/lib/util/lifted/vm/protoparser/influx"
 )
 
@@ -38,19 +39,27 @@ func NewRange(left, right *FieldRef, li, ri bool) *Range {
 }
 
 // turnOpenRangeIntoClosed convert an open range to a closed range. for example, turn (0, 3) into [1, 2].
+// The bounds usually refer to rows of the index itself, so the adjusted value is held by a bound of its own:
+// the referenced column must not be changed.
 func (r *Range) turnOpenRangeIntoClosed() {
 	if len(r.left.cols) > 0 && !r.leftIncluded && r.left.cols[r.left.column].dataType == influx.Field_Type_Int {
-		if val, _ := r.left.cols[r.left.column].column.IntegerValue(r.left.row); val != math.MaxInt64 {
-			r.left.cols[r.left.column].column.UpdateIntegerValue(val+1, false, r.left.row)
+		if val, isNil := r.left.cols[r.left.column].column.IntegerValue(r.left.row); !isNil && val != math.MaxInt64 {
+			r.left = newIntegerBound(r.left.cols[r.left.column].name, val+1)
 			r.leftIncluded = true
 		}
 	}
 	if len(r.right.cols) > 0 && !r.rightIncluded && r.right.cols[r.right.column].dataType == influx.Field_Type_Int {
-		if val, _ := r.right.cols[r.right.column].column.IntegerValue(r.right.row); val != math.MinInt64 {
-			r.right.cols[r.right.column].column.UpdateIntegerValue(val-1, false, r.right.row)
+		if val, isNil := r.right.cols[r.right.column].column.IntegerValue(r.right.row); !isNil && val != math.MinInt64 {
+			r.right = newIntegerBound(r.right.cols[r.right.column].name, val-1)
 			r.rightIncluded = true
 		}
 	}
+}
+
+func newIntegerBound(name string, val int64) *FieldRef {
+	col := &record.ColVal{}
+	col.AppendInteger(val)
+	return NewFieldRef([]*ColumnRef{NewColumnRef(name, influx.Field_Type_Int, col)}, 0, 0)
 }
 
 // leftLEQ x is to the right for the left point of the range.
